@@ -66,6 +66,9 @@ def run_shard(pid, tier, seed, shard, nshards, n_cases, timeout):
     # string hashing differs per shard (deterministically: shard k runs with PYTHONHASHSEED=k), so that behaviour of
     # the repository that depends on set / dict iteration order is exercised under 16 orders instead of one
     env["PYTHONHASHSEED"] = str(shard)
+    if nshards > 2 and shard == nshards - 2:
+        # one shard runs with warnings of the library under test turned into errors (`python -W error`)
+        env["VMON_WARNINGS_AS_ERRORS"] = "1"
     try:
         p = subprocess.run(cmd, capture_output=True, text=True, timeout=timeout, env=env,
                            cwd=VERIF)
@@ -78,6 +81,7 @@ def run_shard(pid, tier, seed, shard, nshards, n_cases, timeout):
                 results.append(json.loads(line))
                 results[-1]["hashseed"] = shard
                 results[-1]["python_O"] = bool(opt)
+                results[-1]["warnings_as_errors"] = bool(env.get("VMON_WARNINGS_AS_ERRORS"))
             except json.JSONDecodeError:
                 pass
     err = None
@@ -186,7 +190,8 @@ def main(argv=None):
         path = os.path.join(d, f"{args.tier}-{args.seed}-{r['idx']}-{tag}.json")
         with open(path, "w") as fh:
             json.dump({"property": pid, "tier": args.tier, "seed": args.seed, "idx": r["idx"],
-                       "hashseed": r.get("hashseed", 0), "python_O": r.get("python_O", False), "case": r.get("case"),
+                       "hashseed": r.get("hashseed", 0), "python_O": r.get("python_O", False),
+                       "warnings_as_errors": r.get("warnings_as_errors", False), "case": r.get("case"),
                        "violation": v}, fh, indent=1,
                       default=str)
         replay_paths.append(os.path.relpath(path, VERIF))
@@ -210,6 +215,7 @@ def main(argv=None):
                 "skipped": skipped,
                 "string_hash_seeds": sorted({r.get("hashseed", 0) for r in results}),
                 "cases_run_under_python_O": sum(1 for r in results if r.get("python_O")),
+                "cases_run_with_library_warnings_as_errors": sum(1 for r in results if r.get("warnings_as_errors")),
                 "exhaustive": False,
                 "known_findings_seen": {m: n for m, (f, n, v) in known_hits.items()},
                 "verdict": ("violated" if violations else
@@ -255,10 +261,15 @@ def replay(pid, path):
         rec = json.load(fh)
     want = str(rec.get("hashseed", 0))
     want_O = bool(rec.get("python_O"))
-    if os.environ.get("PYTHONHASHSEED") != want or bool(sys.flags.optimize) != want_O:
+    want_W = bool(rec.get("warnings_as_errors"))
+    if os.environ.get("PYTHONHASHSEED") != want or bool(sys.flags.optimize) != want_O or \
+            bool(os.environ.get("VMON_WARNINGS_AS_ERRORS")) != want_W:
         # the case ran under this string-hash seed (and possibly under python -O): re-run the replay in an interpreter
         # started the same way
         e = dict(os.environ, PYTHONHASHSEED=want)
+        e.pop("VMON_WARNINGS_AS_ERRORS", None)
+        if want_W:
+            e["VMON_WARNINGS_AS_ERRORS"] = "1"
         return subprocess.run([PY, *(["-O"] if want_O else []), "-m", "vmon.cli", pid, "--replay", path], env=e,
                               cwd=VERIF).returncode
     from vmon import env  # noqa: F401
